@@ -113,7 +113,7 @@ def vec_close(py, exact):
 
 def decode(case):
     """case -> integer matrix as list of lists"""
-    if case[0] == 'M':
+    if case[0] in ('M', 'Q'):
         return [list(r) for r in case[1]]
     _, n, directed, base, code = case
     cells = [(i, j) for i in range(n) for j in range(n) if (i != j if directed else i < j)]
@@ -209,6 +209,43 @@ def random_cases(rs, count, nmax=9):
     return out
 
 
+def rational_cases(rs, count, tier):
+    """dyadic rational lengths k/den (den in 2,4,8): exact in binary floating point, ties by construction
+    (1/2 + 1/2 = 1, 1/4 + 3/4 = 1/2 + 1/2, ...).  case = ('Q', numerators, den); the routines get numerators/den."""
+    out = []
+    # every labelled digraph n<=3 / graph n<=4 with lengths {1/2, 1} and {1/4, 1/2}: a slice in the quick tier
+    for (n, directed) in ((2, True), (3, True), (3, False), (4, False)):
+        for c in enum_cases(n, directed, 3, rs, None if tier == 'thorough' else 250):
+            L = decode(c)
+            out.append(('Q', tuple(tuple(r) for r in L), int(rs.choice([2, 4]))))
+    if tier == 'thorough':
+        for c in enum_cases(4, True, 3, rs, 60000):
+            out.append(('Q', tuple(tuple(r) for r in decode(c)), 2))
+    for k in range(count):
+        n = int(rs.randint(4, 10))
+        directed = bool(rs.rand() < .55)
+        den = int(rs.choice([2, 4, 8]))
+        dens = float(rs.choice([.15, .25, .4, .6, .85]))
+        A = rand_graph(rs, n, dens, directed)
+        mode = k % 3
+        if mode == 0:      # halves and wholes: many exact ties
+            W = rs.choice([den // 2, den, 3 * den // 2, 2 * den], size=(n, n))
+        elif mode == 1:    # any k/den up to 2
+            W = rs.randint(1, 2 * den + 1, size=(n, n))
+        else:              # short and long connections mixed (k/den up to 4)
+            W = rs.choice([1, 2, den, 2 * den, 4 * den], size=(n, n))
+        if not directed:
+            W = np.triu(W, 1); W = W + W.T
+        Lq = (A * W).astype(int)
+        if k % 4 == 1:
+            h = int(rs.randint(1, n)); Lq[:h, h:] = 0; Lq[h:, :h] = 0
+        out.append(('Q', tuple(tuple(int(x) for x in r) for r in Lq), den))
+    # fixed: the two-halves-tie triangle and a chain of diamonds with lengths 1/4+3/4 = 1/2+1/2 = 1
+    out.append(('Q', ((0, 1, 2), (0, 0, 1), (0, 0, 0)), 2))
+    out.append(('Q', ((0, 1, 2, 4, 0), (0, 0, 0, 0, 3), (0, 0, 0, 0, 2), (0, 0, 0, 0, 0), (0, 0, 0, 0, 0)), 4))
+    return out
+
+
 def malformed_cases(rs, count):
     """non-empty diagonal: outside the property's domain; correspondence of the algorithm models only"""
     out = []
@@ -247,8 +284,11 @@ def run_chunk(arg):
         mal = case[0] == 'X'
         L = decode(('M', case[1]) if mal else case)
         n = len(L)
-        A = np.array(L, dtype=float).reshape(n, n)
-        binary = all(x in (0, 1) for r in L for x in r)
+        den = case[2] if case[0] == 'Q' else 1
+        A = np.array(L, dtype=float).reshape(n, n) / den      # exact: dyadic denominators
+        binary = den == 1 and all(x in (0, 1) for r in L for x in r)
+        if den != 1:
+            cnt('rational-lengths'); cnt('den=%d' % den)
         directed = any(L[i][j] != L[j][i] for i in range(n) for j in range(n))
         routines = ROUT_BIN if binary else ROUT_WEI
         R['evals'] += 1
@@ -259,6 +299,7 @@ def run_chunk(arg):
         for f in routines:
             A0 = A.copy()
             st, o = call(getattr(bct, f), A0, t=5.0)
+            cnt('calls:' + f); cnt(st + ':' + f)
             if st == 'timeout':
                 cnt('timeouts'); continue
             if st == 'exc':
@@ -269,9 +310,9 @@ def run_chunk(arg):
             else:
                 outs[f] = ('ok', None, np.asarray(o, dtype=float).ravel().tolist())
             if not np.array_equal(A0, A):
-                R['viol'].append((f, 'input-modified', {'L': L}, {'routine': f}))
+                R['viol'].append((f, 'input-modified', {'L': L, 'den': den}, {'routine': f}))
         if not mal:
-            dist, sig, BC, EBC = brute(L)
+            dist, sig, BC, EBC = brute(L if den == 1 else [[Fr(x, den) for x in r] for r in L])
             disconnected = any(dist[s][t] is None for s in range(n) for t in range(n))
             ties = any(sig[s][t] > 1 for s in range(n) for t in range(n))
             unreach_per_src = max([sum(1 for t in range(n) if dist[s][t] is None) for s in range(n)] or [0])
@@ -282,7 +323,7 @@ def run_chunk(arg):
             if nontriv:
                 R['keys'].append(digest(L))
                 if len(R['samples']) < 2 and ties and disconnected:
-                    R['samples'].append({'L': L, 'BC': [str(x) for x in BC], 'sigma': sig})
+                    R['samples'].append({'L': L, 'den': den, 'BC': [str(x) for x in BC], 'sigma': sig})
             cond0 = {'disconnected': disconnected, 'directed': directed, 'binary': binary, 'max_unreachable_from_a_source': min(unreach_per_src, 2)}
             ebc_flat = [x for r in EBC for x in r]
             for f in routines:
@@ -290,38 +331,38 @@ def run_chunk(arg):
                     continue
                 cond = dict(cond0, routine=f)
                 if outs[f][0] == 'exc':
-                    R['viol'].append((f, 'raises', {'L': L, 'exception': outs[f][1]}, cond))
+                    R['viol'].append((f, 'raises', {'L': L, 'den': den, 'exception': outs[f][1]}, cond))
                     continue
                 _, ebc, bc = outs[f]
                 if not vec_close(bc, BC):
-                    R['viol'].append((f, 'node-betweenness', {'L': L, 'returned': bc, 'expected': [str(x) for x in BC]}, cond))
+                    R['viol'].append((f, 'node-betweenness', {'L': L, 'den': den, 'returned': bc, 'expected': [str(x) for x in BC]}, cond))
                 if ebc is not None and not vec_close([x for r in ebc for x in r], ebc_flat):
-                    R['viol'].append((f, 'edge-betweenness', {'L': L, 'returned': ebc, 'expected': [[str(x) for x in r] for r in EBC]}, cond))
+                    R['viol'].append((f, 'edge-betweenness', {'L': L, 'den': den, 'returned': ebc, 'expected': [[str(x) for x in r] for r in EBC]}, cond))
                 if binary:
                     hd = bfs_dist(L)
                     tot = sum(hd[s][t] for s in range(n) for t in range(n) if s != t and hd[s][t] is not None)
                     npairs = sum(1 for s in range(n) for t in range(n) if s != t and hd[s][t] is not None)
                     if not close(sum(bc), tot - npairs):
-                        R['viol'].append((f, 'sum-node-bin', {'L': L, 'sum_BC': sum(bc), 'sum_d_minus_1': tot - npairs}, cond))
+                        R['viol'].append((f, 'sum-node-bin', {'L': L, 'den': den, 'sum_BC': sum(bc), 'sum_d_minus_1': tot - npairs}, cond))
                     if ebc is not None and not close(sum(x for r in ebc for x in r), tot):
-                        R['viol'].append((f, 'sum-edge-bin', {'L': L, 'sum_EBC': sum(x for r in ebc for x in r), 'sum_d': tot}, cond))
+                        R['viol'].append((f, 'sum-edge-bin', {'L': L, 'den': den, 'sum_EBC': sum(x for r in ebc for x in r), 'sum_d': tot}, cond))
             # the node vector of the edge routines equals the node routines' result (real outputs only)
             for fe, fn in (('edge_betweenness_bin', 'betweenness_bin'), ('edge_betweenness_wei', 'betweenness_wei')):
                 if fe in outs and fn in outs and outs[fe][0] == 'ok' and outs[fn][0] == 'ok':
                     if not vec_close(outs[fe][2], outs[fn][2]):
-                        R['viol'].append((fe, 'edge-node-vector', {'L': L, 'edge_routine_BC': outs[fe][2], 'node_routine_BC': outs[fn][2]}, dict(cond0, routine=fe)))
+                        R['viol'].append((fe, 'edge-node-vector', {'L': L, 'den': den, 'edge_routine_BC': outs[fe][2], 'node_routine_BC': outs[fn][2]}, dict(cond0, routine=fe)))
         else:
             dist = sig = BC = EBC = None
         if lean_ok:
-            ms = mat_str(A)
+            ms = ','.join(str(int(x)) for r in L for x in r) + ('' if den == 1 else ' den=%d' % den)
             if not mal:
-                lines.append('spec n=%d L=%s' % (n, ms)); meta.append(('spec', L, (dist, sig, BC, EBC), None))
+                lines.append('spec n=%d L=%s' % (n, ms)); meta.append(('spec', (L, den), (dist, sig, BC, EBC), None))
             for f in routines:
                 # betweenness_wei is the BC component of the very same model loop as edge_betweenness_wei: one driver line serves both
                 if f in outs and not (f == 'betweenness_wei' and 'edge_betweenness_wei' in outs):
-                    lines.append('%s n=%d L=%s' % (f, n, ms)); meta.append((f, L, (dist, sig, BC, EBC), outs[f]))
+                    lines.append('%s n=%d L=%s' % (f, n, ms)); meta.append((f, (L, den), (dist, sig, BC, EBC), outs[f]))
                     if f == 'edge_betweenness_wei' and 'betweenness_wei' in outs:
-                        meta[-1] = (f, L, (dist, sig, BC, EBC), outs[f], outs['betweenness_wei'])
+                        meta[-1] = (f, (L, den), (dist, sig, BC, EBC), outs[f], outs['betweenness_wei'])
     if lean_ok and lines:
         try:
             res = run_driver('Between', lines)
@@ -329,7 +370,7 @@ def run_chunk(arg):
             R['breaks'].append(('Between driver', str(e)))
             return R
         for mt, o in zip(meta, res):
-            op, L, orc, py = mt[:4]
+            op, (L, den), orc, py = mt[:4]
             n = len(L)
             R['corr'] += 1
             bad = None
@@ -347,38 +388,39 @@ def run_chunk(arg):
                 if not okw:
                     R['corr_bad'] += 1
                     if len(R['breaks']) < 3:
-                        R['breaks'].append(('model vs bct.betweenness_wei', {'L': L, 'model': o[:300], 'impl': pw[1] if pw[0] == 'exc' else pw[2]}))
+                        R['breaks'].append(('model vs bct.betweenness_wei', {'L': L, 'den': den, 'model': o[:300], 'impl': pw[1] if pw[0] == 'exc' else pw[2]}))
             kvs = kv(o)
             try:
                 if op == 'spec':
                     dist, sig, BC, EBC = orc
-                    ed = ','.join('inf' if x is None else str(x) for r in dist for x in r)
+                    ed = [None if x is None else Fr(x) for r in dist for x in r]
                     es = ','.join(str(x) for r in sig for x in r)
-                    if kvs.get('d') != ed or kvs.get('sig') != es:
-                        bad = ('spec model dist/sigma vs brute-force oracle', {'L': L, 'model': o[:300], 'oracle_d': ed, 'oracle_sigma': es})
+                    md = [None if t == 'inf' else Fr(t) for t in kvs['d'].split(',')]
+                    if md != ed or kvs.get('sig') != es:
+                        bad = ('spec model dist/sigma vs brute-force oracle', {'L': L, 'den': den, 'model': o[:300], 'oracle_d': [str(x) for x in ed], 'oracle_sigma': es})
                     elif fr_list(kvs['bc']) != BC or fr_list(kvs['ebc']) != [x for r in EBC for x in r]:
-                        bad = ('spec model bcSpec/ebcSpec vs brute-force oracle', {'L': L, 'model': o[:300], 'oracle_bc': [str(x) for x in BC]})
+                        bad = ('spec model bcSpec/ebcSpec vs brute-force oracle', {'L': L, 'den': den, 'model': o[:300], 'oracle_bc': [str(x) for x in BC]})
                     else:
                         R['spec_exact'] += 1
                 elif py[0] == 'exc':
                     if kvs.get('error') != exc_kind(py[1]):
-                        bad = ('model vs bct.%s (exception)' % op, {'L': L, 'model': o[:300], 'impl': py[1]})
+                        bad = ('model vs bct.%s (exception)' % op, {'L': L, 'den': den, 'model': o[:300], 'impl': py[1]})
                 else:
                     if 'error' in kvs:
-                        bad = ('model vs bct.%s' % op, {'L': L, 'model': o[:300], 'impl': 'returned normally'})
+                        bad = ('model vs bct.%s' % op, {'L': L, 'den': den, 'model': o[:300], 'impl': 'returned normally'})
                     else:
                         mbc = fr_list(kvs['bc'])
                         okc = vec_close(py[2], mbc)
                         if py[1] is not None:
                             okc = okc and vec_close([x for r in py[1] for x in r], fr_list(kvs['ebc']))
                         if not okc:
-                            bad = ('model vs bct.%s' % op, {'L': L, 'model': o[:300], 'impl_bc': py[2], 'impl_ebc': py[1]})
+                            bad = ('model vs bct.%s' % op, {'L': L, 'den': den, 'model': o[:300], 'impl_bc': py[2], 'impl_ebc': py[1]})
                         elif orc[2] is not None:
                             # algorithm-level model = definition-level spec, exactly (also proved: brandes_wei_correct, edge_betweenness_bin_correct, betweennessBin_correct)
                             if mbc != orc[2] or (py[1] is not None and fr_list(kvs['ebc']) != [x for r in orc[3] for x in r]):
-                                bad = ('algorithm model %s vs definition (exact rationals)' % op, {'L': L, 'model': o[:300]})
+                                bad = ('algorithm model %s vs definition (exact rationals)' % op, {'L': L, 'den': den, 'model': o[:300]})
             except Exception as e:  # malformed driver output is a break, never agreement
-                bad = ('unparsable driver output for %s' % op, {'L': L, 'model': o[:300], 'exc': repr(e)})
+                bad = ('unparsable driver output for %s' % op, {'L': L, 'den': den, 'model': o[:300], 'exc': repr(e)})
             if bad:
                 R['corr_bad'] += 1
                 if len(R['breaks']) < 3:
@@ -386,7 +428,7 @@ def run_chunk(arg):
     return R
 
 
-PROTO_BAD = ['spec n=3 L=0,1,0', 'betweenness_wei n=2 L=0,1,-1,0', 'spec n=x L=0', 'between n=2 L=0,1,1,0', 'spec L=0', '',
+PROTO_BAD = ['spec n=3 L=0,1,0', 'spec n=2 L=0,1,1,0 den=0', 'betweenness_wei n=2 L=0,1,1,0 den=1/2', 'betweenness_wei n=2 L=0,1,-1,0', 'spec n=x L=0', 'between n=2 L=0,1,1,0', 'spec L=0', '',
              'edge_betweenness_bin n=2 L=0,1,a,0']
 
 
@@ -395,11 +437,15 @@ def main():
     ck.cov['rule'] = ('cases = connection(-length) matrices with empty diagonal: exhaustive labelled digraphs n<=4 / undirected graphs n<=5, binary and '
                       'with lengths in {1,2} (thorough: all of them; quick: all binary ones, all {1,2}-weighted ones for n<=3 directed / n<=4 undirected plus a seeded random slice of the rest), '
                       'structured tie-rich graphs (paths, cycles, stars, grids, cube, complete bipartite, diamond chains), random n=5..9 graphs '
-                      '(lengths 1..3, densities .12-.85, isolated nodes / two components / sources and sinks forced in half of them); every case is run '
+                      '(lengths 1..3, densities .12-.85, isolated nodes / two components / sources and sinks forced in half of them), dyadic rational '
+                      'lengths k/den, den in {2,4,8} (exact in floats; exhaustive small graphs with lengths {1/den, 2/den}, random n=4..9 with halves/wholes, '
+                      'any k/den <= 2, mixed short/long), given to the weighted routines as numerators/den and to the model as numerators + den; every case is run '
                       'through all applicable routines. non-trivial = distinct matrix on which some node has non-zero betweenness '
                       '(at least one shortest path with an interior node)')
     ck.assumptions += ['connection lengths are positive integers, 0 = no connection, empty diagonal (the weighted routines take a connection-length matrix)',
-                       'binary routines are only given binary matrices; the weighted routines are given binary and {1,2,3}-length matrices',
+                       'binary routines are only given binary matrices; the weighted routines are given binary, {1,2,3}-length and dyadic rational-length matrices '
+                       '(non-dyadic rationals are excluded: float sums of thirds need not tie exactly)',
+                       'per routine: at least one normal return and at most max(2, 1%) watchdog timeouts, otherwise the run is reported as broken',
                        'floats of the real routines are compared with exact rationals at 1e-9 relative to max(1,|x|)']
     ok = ck.lean_gate(['BctVerif.Props.C08'], extra_modules=['BctVerif.Model.Between'])
     if ck.tier == 'thorough' and ok:
@@ -407,7 +453,8 @@ def main():
     rs = ck.rs
     if ck.replay:
         rc = json.load(open(ck.replay))['case']
-        cases = [('M', tuple(tuple(int(x) for x in r) for r in rc['L']))]
+        Lr = tuple(tuple(int(x) for x in r) for r in rc['L'])
+        cases = [('Q', Lr, int(rc['den']))] if int(rc.get('den', 1)) != 1 else [('M', Lr)]
     elif ck.tier == 'thorough':
         cases = []
         for n in (1, 2, 3, 4):
@@ -415,7 +462,7 @@ def main():
         for n in (2, 3, 4, 5):
             cases += enum_cases(n, False, 2) + enum_cases(n, False, 3)
         ck.cov['exhaustive'] = True
-        cases += structured() + random_cases(rs, 6000) + malformed_cases(rs, 400)
+        cases += structured() + random_cases(rs, 6000) + rational_cases(rs, 6000, 'thorough') + malformed_cases(rs, 400)
     else:
         cases = []
         for n in (1, 2, 3):
@@ -424,7 +471,7 @@ def main():
             cases += enum_cases(n, False, 2) + enum_cases(n, False, 3)
         cases += enum_cases(4, True, 2) + enum_cases(4, True, 3, rs, 5000)
         cases += enum_cases(5, False, 2) + enum_cases(5, False, 3, rs, 2500)
-        cases += structured() + random_cases(rs, 1000) + malformed_cases(rs, 100)
+        cases += structured() + random_cases(rs, 1000) + rational_cases(rs, 1500, 'quick') + malformed_cases(rs, 100)
     csz = 400 if ck.tier == 'quick' else 2500
     chunks = [(i, cases[i:i + csz], ok) for i in range(0, len(cases), csz)]
     # interleave cheap and expensive chunks a little: sort is not needed, pool.map balances with chunksize 1
@@ -442,6 +489,12 @@ def main():
         for (what, detail) in R['breaks']:
             ck.corr_break(what, detail)
         corr += R['corr']; bad += R['corr_bad']; spec_exact += R['spec_exact']
+    # a routine that (almost) never returns normally must not pass silently
+    for f in ROUT_BIN:
+        calls = ck.dist.get('calls:' + f, 0); okc = ck.dist.get('ok:' + f, 0); to = ck.dist.get('timeout:' + f, 0)
+        if calls and not ck.replay and (okc == 0 or to > max(2, calls // 100)):
+            ck.corr_break('bct.%s does not return normally' % f, {'calls': calls, 'ok': okc, 'timeouts': to, 'exceptions': ck.dist.get('exc:' + f, 0),
+                                                                   'bound': 'at least one normal return and at most max(2, 1%) timeouts'})
     ck.count('correspondence_cases', corr); ck.count('correspondence_disagreements', bad)
     ck.count('spec_model_equals_bruteforce_exactly', spec_exact)
     ck.cov['traces_validated_against_impl'] = corr - bad
